@@ -63,8 +63,10 @@ class CallSeam:
     # simulator can aim faults at the window in which per-call state has been written but not yet cleaned up
     MARKERS = frozenset({"replace_nodes_and_values", "replace_all_uses_with"})
 
+    paused = False   # harness set-up (building the input model, constructing long-lived objects) is not part of the operation
+
     def _trace(self, frame, event, arg):
-        if event == "call":
+        if event == "call" and not self.paused:
             fn = frame.f_code.co_filename
             if fn.startswith(self.prefixes):
                 c = self.count
@@ -103,6 +105,21 @@ class Runtime:
             os.path.join(os.path.dirname(onnx.__file__), "reference") + os.sep,
         ))
 
+    def setup(self):
+        """Context: harness set-up inside an operation (constructing a long-lived pass / rule-set object): not traced."""
+        import contextlib
+
+        @contextlib.contextmanager
+        def cm():
+            prev = self.seam.paused
+            self.seam.paused = True
+            try:
+                yield
+            finally:
+                self.seam.paused = prev
+
+        return cm()
+
     # -------------------------------------------------------------- heap skew
     def skew(self, n: int):
         """Shift pymalloc pools / arenas so that later id()s differ: allocate n mixed objects, free a part."""
@@ -117,8 +134,14 @@ class Runtime:
 
     # -------------------------------------------------------------- models
     def load_model_proto(self, m: dict):
-        mp = self._load_model_proto(m)
-        self._in_norm = self._norm(mp)
+        # preparing the operation's input (parsing / building / translating the model) is harness set-up: no calls are
+        # counted and no fault is injected there, so a fault can never leave a damaged *input* behind for later operations
+        self.seam.paused = True
+        try:
+            mp = self._load_model_proto(m)
+            self._in_norm = self._norm(mp)
+        finally:
+            self.seam.paused = False
         return mp
 
     @staticmethod
@@ -500,9 +523,10 @@ class Runtime:
             veto = {"veto_add": "Add", "veto_mul": "Mul"}[op.get("answer", "veto_add")]
             key = ("fold_pass_cb", veto)
             if key not in self.long:
-                self.long[key] = cf.FoldConstantsPass(shape_inference=True, input_size_limit=cf.DEFAULT_CONSTANT_FOLD_INPUT_SIZE_LIMIT,
-                                                      output_size_limit=cf.DEFAULT_CONSTANT_FOLD_OUTPUT_SIZE_LIMIT,
-                                                      should_fold=lambda n, veto=veto: False if n.op_type == veto else None)
+                with self.setup():
+                    self.long[key] = cf.FoldConstantsPass(shape_inference=True, input_size_limit=cf.DEFAULT_CONSTANT_FOLD_INPUT_SIZE_LIMIT,
+                                                          output_size_limit=cf.DEFAULT_CONSTANT_FOLD_OUTPUT_SIZE_LIMIT,
+                                                          should_fold=lambda n, veto=veto: False if n.op_type == veto else None)
             m = self._as_ir(mp)
             r = self.long[key](m)
             return {"model": self._serialize(r.model), "modified": str(bool(r.modified))}
@@ -526,9 +550,10 @@ class Runtime:
 
             key = ("fold_pass", json.dumps(opts, sort_keys=True))
             if key not in self.long:
-                self.long[key] = cf.FoldConstantsPass(shape_inference=opts.get("onnx_shape_inference", True),
-                                                      input_size_limit=opts.get("input_size_limit", cf.DEFAULT_CONSTANT_FOLD_INPUT_SIZE_LIMIT),
-                                                      output_size_limit=opts.get("output_size_limit", cf.DEFAULT_CONSTANT_FOLD_OUTPUT_SIZE_LIMIT))
+                with self.setup():
+                    self.long[key] = cf.FoldConstantsPass(shape_inference=opts.get("onnx_shape_inference", True),
+                                                          input_size_limit=opts.get("input_size_limit", cf.DEFAULT_CONSTANT_FOLD_INPUT_SIZE_LIMIT),
+                                                          output_size_limit=opts.get("output_size_limit", cf.DEFAULT_CONSTANT_FOLD_OUTPUT_SIZE_LIMIT))
             m = self._as_ir(mp)
             r = self.long[key](m)
             out = r.model
@@ -553,6 +578,13 @@ class Runtime:
         key = ("rules", name)
         if key in self.long:
             return self.long[key]
+        self.seam.paused = True   # constructing the long-lived rule-set object is set-up, not the operation
+        try:
+            return self._build_rules(name, key)
+        finally:
+            self.seam.paused = False
+
+    def _build_rules(self, name: str, key):
         from onnxscript import rewriter
         from onnxscript.rewriter import pattern
         from onnxscript.rewriter.rules import common as rc
@@ -687,14 +719,19 @@ class Runtime:
             if "usermod" not in self.long:
                 import types
 
+                self.seam.paused = True
                 src = op["rules_src"]
                 fname = f"<dsim-userrules-{_sha(src.encode())}>"
                 linecache.cache[fname] = (len(src), None, src.splitlines(True), fname)
                 mod = types.ModuleType("dsim_userrules")
                 mod.__file__ = fname
-                exec(compile(src, fname, "exec"), mod.__dict__)  # noqa: S102
+                try:
+                    exec(compile(src, fname, "exec"), mod.__dict__)  # noqa: S102
+                finally:
+                    self.seam.paused = False
                 self.long["usermod"] = mod
-            self.long[("rules", rules)] = self.long["usermod"].build(rules.split(":", 1)[1])
+            with self.setup():
+                self.long[("rules", rules)] = self.long["usermod"].build(rules.split(":", 1)[1])
         if rules == "default":
             if api == "proto":
                 out = rewriter.rewrite(mp)
@@ -702,7 +739,8 @@ class Runtime:
                 out = rewriter.rewrite(self._as_ir(mp))
             else:  # long-lived RewritePass over the module-level default tuple
                 if "rewrite_pass" not in self.long:
-                    self.long["rewrite_pass"] = rewriter.RewritePass(rewriter._DEFAULT_REWRITE_RULES)
+                    with self.setup():
+                        self.long["rewrite_pass"] = rewriter.RewritePass(rewriter._DEFAULT_REWRITE_RULES)
                 m = self._as_ir(mp)
                 r = self.long["rewrite_pass"](m)
                 return {"model": self._serialize(r.model), "modified": str(bool(r.modified))}
@@ -753,7 +791,8 @@ class Runtime:
         else:
             key = ("convert_pass", target, fallback)
             if key not in self.long:
-                self.long[key] = vc.ConvertVersionPass(target_version=target, fallback=fallback)
+                with self.setup():
+                    self.long[key] = vc.ConvertVersionPass(target_version=target, fallback=fallback)
             m = self._as_ir(mp)
             r = self.long[key](m)
             return {"model": self._serialize(r.model), "modified": str(bool(r.modified))}
@@ -809,6 +848,10 @@ class Runtime:
         finally:
             if count:
                 self.seam.stop()
+                if self.seam.fired is not None and op["kind"] == "translate":
+                    # the functions created while a fault fired (even a swallowed one) are this operation's own, possibly
+                    # damaged, products: a later revisit must not mistake them for the pristine long-lived functions
+                    self.modules.pop(_sha(op["src"].encode()), None)
                 rec["calls"] = self.seam.count
                 if op.get("count_calls"):
                     rec["marks"] = list(self.seam.marks)
